@@ -15,12 +15,18 @@
 (*   recover RecoveryProgress: the head moved forward, or the lookahead     *)
 (*           changed (token injected) -- the variant that makes termination *)
 (*           a safety property (C11)                                        *)
+(*   strat   (logged by the harness's own custom strategy, not by a hook):  *)
+(*           what the strategy left in the head when it returned.  The     *)
+(*           next recover event -- the parser's view after _do_recovery --  *)
+(*           must continue from exactly that (position and lookahead): the  *)
+(*           documented contract of custom recovery                        *)
 (* The spec is total: the first disallowed event sets `verdict`.            *)
 (***************************************************************************)
 EXTENDS Naturals, Sequences, FiniteSets, TLC, Json, IOUtils
 Cases == JsonDeserialize(IOEnv.CASES_FILE)
-VARIABLES cid, l, stack, la, pos, verdict, nrec, lastrec
-vars == <<cid, l, stack, la, pos, verdict, nrec, lastrec>>
+VARIABLES cid, l, stack, la, pos, verdict, nrec, lastrec, pend
+vars == <<cid, l, stack, la, pos, verdict, nrec, lastrec, pend>>
+NoPend == <<>>
 C == Cases[cid]
 Trace == C.lrtrace
 Prod(p) == C.prods[p+1]
@@ -30,12 +36,16 @@ Has(s, sym, a) == \E i \in DOMAIN Acts(s, sym) : Acts(s, sym)[i] = a
 Top == stack[Len(stack)]
 e == Trace[l]
 Step == l' = l + 1 /\ UNCHANGED cid
-Fail(msg) == verdict' = msg /\ UNCHANGED <<stack, la, pos, nrec, lastrec>>
+Fail(msg) == verdict' = msg /\ UNCHANGED <<stack, la, pos, nrec, lastrec, pend>>
 
-Tok == e.e = "tok" /\ Step /\ la' = e.sym /\ pos' = e.pos /\ UNCHANGED <<stack, verdict, nrec, lastrec>>
+\* the scanner runs only when no lookahead is pending (after a shift, or after a recovery that left none)
+Tok == e.e = "tok" /\ Step /\
+  IF la # "-" THEN Fail("lr:rescan-with-pending-lookahead")
+  ELSE la' = e.sym /\ pos' = e.pos /\ UNCHANGED <<stack, verdict, nrec, lastrec, pend>>
+Strat == e.e = "strat" /\ Step /\ pend' = <<e.ok, e.sym, e.pos>> /\ UNCHANGED <<stack, la, pos, verdict, nrec, lastrec>>
 Shift == e.e = "shift" /\ Step /\
   IF ~Has(Top, la, [a |-> "S", to |-> e.st]) THEN Fail("lr:shift-not-in-table")
-  ELSE /\ stack' = Append(stack, e.st) /\ pos' = e.pos /\ la' = "-" /\ UNCHANGED <<verdict, nrec, lastrec>>
+  ELSE /\ stack' = Append(stack, e.st) /\ pos' = e.pos /\ la' = "-" /\ UNCHANGED <<verdict, nrec, lastrec, pend>>
 \* with consume_input off a reduction may be taken from the STOP column when the lookahead has no action
 RedOK(p) == Has(Top, la, [a |-> "R", p |-> p]) \/ (~C.consume /\ Acts(Top, la) = <<>> /\ Has(Top, "STOP", [a |-> "R", p |-> p]))
 Reduce == e.e = "reduce" /\ Step /\
@@ -45,14 +55,16 @@ Reduce == e.e = "reduce" /\ Step /\
   ELSE LET below == stack[Len(stack) - k] IN
        IF Prod(e.p).lhs \notin DOMAIN State(below).gotos THEN Fail("lr:no-goto")
        ELSE IF State(below).gotos[Prod(e.p).lhs] # e.st THEN Fail("lr:wrong-goto")
-       ELSE stack' = Append(SubSeq(stack, 1, Len(stack) - k), e.st) /\ UNCHANGED <<la, pos, verdict, nrec, lastrec>>
+       ELSE stack' = Append(SubSeq(stack, 1, Len(stack) - k), e.st) /\ UNCHANGED <<la, pos, verdict, nrec, lastrec, pend>>
 Accept == e.e = "accept" /\ Step /\
-  IF Has(Top, la, [a |-> "A"]) \/ (~C.consume /\ Acts(Top, la) = <<>> /\ Has(Top, "STOP", [a |-> "A"])) THEN UNCHANGED <<stack, la, pos, verdict, nrec, lastrec>>
+  IF Has(Top, la, [a |-> "A"]) \/ (~C.consume /\ Acts(Top, la) = <<>> /\ Has(Top, "STOP", [a |-> "A"])) THEN UNCHANGED <<stack, la, pos, verdict, nrec, lastrec, pend>>
   ELSE Fail("lr:accept-not-in-table")
 Error == e.e = "error" /\ Step /\
   IF la # "-" /\ Acts(Top, la) # <<>> THEN Fail("lr:error-although-action-exists")
-  ELSE UNCHANGED <<stack, la, pos, verdict, nrec, lastrec>>
-Recover == e.e = "recover" /\ Step /\ nrec' = nrec + 1 /\ UNCHANGED stack /\
+  ELSE UNCHANGED <<stack, la, pos, verdict, nrec, lastrec, pend>>
+Recover == e.e = "recover" /\ Step /\ nrec' = nrec + 1 /\ UNCHANGED stack /\ pend' = NoPend /\
+  IF pend # NoPend /\ (e.ok # pend[1] \/ (e.ok /\ (e.sym # pend[2] \/ e.pos # pend[3])))
+  THEN verdict' = "C11:parser-does-not-continue-from-what-the-strategy-left" /\ UNCHANGED <<la, pos, lastrec>> ELSE
   \* progress is demanded of the DEFAULT strategy; a custom strategy decides itself what it does to the head
   IF C.strategy \in {"default", "wrap"} /\ e.ok /\ <<e.pos, e.sym, stack>> = lastrec THEN verdict' = "C11:recovery-without-progress" /\ UNCHANGED <<la, pos, lastrec>>
   ELSE IF C.strategy \in {"default", "wrap"} /\ e.ok /\ e.pos <= pos THEN verdict' = "C11:default-recovery-does-not-advance" /\ UNCHANGED <<la, pos, lastrec>>
@@ -60,8 +72,8 @@ Recover == e.e = "recover" /\ Step /\ nrec' = nrec + 1 /\ UNCHANGED stack /\
        /\ pos' = (IF e.ok THEN e.pos ELSE pos)
        /\ lastrec' = (IF e.ok THEN <<e.pos, e.sym, stack>> ELSE lastrec)
        /\ UNCHANGED verdict
-Init == cid \in DOMAIN Cases /\ l = 1 /\ stack = <<0>> /\ la = "-" /\ pos = 0 /\ verdict = "ok" /\ nrec = 0 /\ lastrec = <<>>
-Next == verdict = "ok" /\ l <= Len(Trace) /\ (Tok \/ Shift \/ Reduce \/ Accept \/ Error \/ Recover)
+Init == cid \in DOMAIN Cases /\ l = 1 /\ stack = <<0>> /\ la = "-" /\ pos = 0 /\ verdict = "ok" /\ nrec = 0 /\ lastrec = <<>> /\ pend = NoPend
+Next == verdict = "ok" /\ l <= Len(Trace) /\ (Tok \/ Shift \/ Reduce \/ Accept \/ Error \/ Recover \/ Strat)
 Spec == Init /\ [][Next]_vars
 Report == (verdict # "ok" \/ l > Len(Trace)) => PrintT(<<"TRACE", C.cix, verdict, l, nrec>>)
 =============================================================================
